@@ -202,7 +202,7 @@ PROPS["C16"] = {
 			bounds="sparse index of 2 distinct blocks at symbolic levels/positions with partial local boxes", sample="two symbolic block records written by the harness' own encoder", stubs=[POW, "HashMap model"], timeout=900),
 	] + [
 		H(f"c16_block_index_sparse_{kind}_{za}_{zb}", CONT, f"{VT}::block_index::kani_harness", funcs=["BlockIndex::from_blob", "BlockDefinition::from_blob", "BlockIndex::get_block"] + (["BlockIndex::get_bbox_pyramid", "TileBBoxPyramid::include_bbox"] if kind == "coverage" else []),
-			bounds=f"sparse index of 2 distinct blocks at levels {za} and {zb} (concrete per instance), symbolic block positions (not neighbours in general) and partial local boxes", sample="two symbolic block records written by the harness' own encoder", stubs=[POW, "HashMap model"], timeout=900, tier=t)
+			bounds=f"sparse index of 2 distinct blocks at levels {za} and {zb} (concrete per instance), symbolic block positions (not neighbours in general), partial local boxes, symbolic byte ranges (u32 offset and length, u16 index length; may overlap or coincide)", sample="two symbolic block records written by the harness' own encoder", stubs=[POW, "HashMap model"], timeout=900, tier=t)
 		for kind, za, zb, t in [("accept", 12, 12, "quick"), ("accept", 5, 12, "quick"), ("accept", 31, 31, "thorough"), ("coverage", 12, 12, "thorough"), ("coverage", 5, 12, "thorough")]
 	],
 	"meta": {
@@ -555,7 +555,7 @@ SLOW_OK = {"c15_h11_pyramid_intersect": 1500, "c15_h11_pyramid_zoom_limits": 150
 	"c15_h11_pyramid_transform": 1200, "c15_h11_pyramid_eq": 1200, "c15_h11_pyramid_ctor": 1200, "c09_intersect_pyramid": 1200}
 TIER_OVERRIDE = {
 	"c19_entries_v3_any_2": "thorough", "c15_h8_iter_coords_2x2": "thorough", "c15_h11_pyramid_include_l7": "thorough",
-	"c15_h9_grid_s2_1x2": "thorough", "c15_h9_grid_s256_256x1": "thorough",
+	"c15_h9_grid_s2_1x2": "quick", "c15_h9_grid_s256_256x1": "thorough",
 }
 import os as _os
 _DEV_ALL = bool(_os.environ.get("VERIF_DEV_ALL"))  # development knob: run unregistered harnesses too (never set by a registered command)
